@@ -230,12 +230,119 @@ def c15(case, rec=None):
     return n >= 2
 
 
-ORACLES = {"C17": c17, "C02": c02, "C04": c04, "C06": c06, "C15": c15}
+# ---- C10 part B: stripe sequences of compiled networks --------------------------------------------------
+def c10(case, rec=None):
+    """groups the kernel operations of every stream by operator (labels), then checks (1) the OFM boxes of the group partition the region the operator writes and
+    (2) for every stripe the decoded pads and the rows the hardware derives are the receptive field of the stripe's output rows"""
+    art, res = _compile(case, "C10", capture=True)
+    if art is None or not art.npu_ops:
+        return False
+    streams = [cap["ops"] for cap in res["captured"]]
+    multi = False
+    checked = 0
+    for si, nop in enumerate(art.npu_ops):
+        try:
+            cmds = [c for c in nop.cmds() if c.kind in ("conv", "depthwise", "pool", "elementwise", "dma")]
+        except (csdec.DecodeError, payload.PayloadError) as e:
+            raise Violation("C10/undecodable", str(e), case)
+        labels = streams[si] if si < len(streams) else []
+        if len(labels) != len(cmds):
+            if rec is not None:
+                rec.cls("labels-unavailable")
+            continue
+        groups = {}
+        for c, lab in zip(cmds, labels):
+            if c.kind == "dma" or lab.get("ofm_box") is None or lab.get("label_error"):
+                continue
+            f = csdec.fields(c)
+            o = f["ofm"]
+            box = lab["ofm_box"]
+            size = [b - a for a, b in zip(box[0], box[1])]
+            if size[1:] != [o["height"], o["width"], o["depth"]]:
+                raise Violation("C10/artefact/ofm-box", "operation of %s writes %s rows/cols/channels but its stripe box is %s" % (lab.get("op_name"), [o["height"], o["width"], o["depth"]], box), case)
+            groups.setdefault((lab.get("op_name"), lab.get("ofm_eq")), []).append((c, f, lab))
+        for (name, _), items in groups.items():
+            lab0 = items[0][2]
+            full = lab0.get("write_shape") or lab0.get("ofm_full_shape")
+            off = lab0.get("write_offset") or [0, 0, 0, 0]
+            if lab0.get("write_shape") is None:
+                off = [0, 0, 0, 0]
+            if not full:
+                continue
+            boxes = [it[2]["ofm_box"] for it in items]
+            vol = 0
+            for b in boxes:
+                if any(a < o_ or e > o_ + n for a, e, o_, n in zip(b[0], b[1], off, full)):
+                    raise Violation("C10/artefact/outside", "%s: stripe box %s lies outside the region %s+%s the operator writes" % (name, b, off, full), case)
+                vol += (b[1][0] - b[0][0]) * (b[1][1] - b[0][1]) * (b[1][2] - b[0][2]) * (b[1][3] - b[0][3])
+            for i in range(len(boxes)):
+                for j in range(i + 1, len(boxes)):
+                    if all(max(boxes[i][0][k], boxes[j][0][k]) < min(boxes[i][1][k], boxes[j][1][k]) for k in range(4)):
+                        raise Violation("C10/artefact/overlap", "%s: stripes %s and %s overlap" % (name, boxes[i], boxes[j]), case)
+            if vol != full[0] * full[1] * full[2] * full[3] and lab0.get("ofm_sub_purpose") == "RollingBufferY":
+                # inside a cascade the producer only makes the rows its consumers ask for; rows nobody reads are not part of what the operator computes for
+                # the network.  Every row a consumer stripe reads must still be produced
+                covered = set()
+                for b in boxes:
+                    covered.update(range(b[0][1], b[1][1]))
+                readers = [l2 for l2 in labels if not l2.get("dma") and l2.get("ifm_eq") == lab0.get("ofm_eq") and l2.get("ifm_box")]
+                missing = sorted(set(y for l2 in readers for y in range(l2["ifm_box"][0][1], l2["ifm_box"][1][1])) - covered)
+                if readers and not missing:
+                    if rec is not None:
+                        rec.cls("cascade-producer-skips-unread-rows")
+                    vol = full[0] * full[1] * full[2] * full[3]
+                else:
+                    raise Violation("C10/artefact/gap-read", "%s: rows %s of its output are read by a cascaded consumer but produced by no stripe" % (name, missing[:8]), case)
+            if vol != full[0] * full[1] * full[2] * full[3]:
+                raise Violation("C10/artefact/gap", "%s: %d stripes cover %d of the %d output elements (%s)" % (name, len(boxes), vol, full[0] * full[1] * full[2] * full[3], boxes[:6]), case)
+            if len(set((b[0][1], b[1][1]) for b in boxes)) >= 2:
+                multi = True
+            # receptive fields (no up-scaling; kernel operations only)
+            for c, f, lab in items:
+                if c.kind == "elementwise" or f.get("upscale") or not lab.get("kernel") or lab.get("ifm_box") is None or lab.get("explicit_padding") is None:
+                    continue
+                kw, kh, sx, sy, dx, dy = lab["kernel"]
+                dk = dy * (kh - 1) + 1
+                P_top = lab["explicit_padding"][0]
+                ro = (lab.get("read_offsets") or [None])[0]
+                rs = (lab.get("read_shapes") or [None])[0]
+                H = (lab.get("ifm_full_shape") or [0, 0, 0, 0])[1]
+                lo = ro[1] if ro else 0
+                hi = lo + (rs[1] if rs else H - lo)
+                woff = (lab.get("write_offset") or [0, 0, 0, 0])[1] if lab.get("write_shape") else 0
+                y0, y1 = lab["ofm_box"][0][1] - woff, lab["ofm_box"][1][1] - woff
+                if (f["kernel"]["stride_y"], f["kernel"]["dilated_h"]) != (sy, dk):
+                    continue  # the operation was re-expressed (e.g. kernel decomposition); part A covers the arithmetic
+                r0 = y0 * sy - P_top + lo
+                r1 = (y1 - 1) * sy - P_top + dk + lo
+                pt, pb = f["pad"]["top"], f["pad"]["bottom"]
+                E = fpm.ifm_extent(f)[0]
+                a = lab["ifm_box"][0][1]
+                checked += 1
+                where = "%s stripe rows [%d,%d): kernel %d stride %d operator top pad %d, input rows [%d,%d)" % (name, y0, y1, dk, sy, P_top, lo, hi)
+                if a != max(r0, lo) or pt != max(0, lo - r0):
+                    raise Violation("C10/artefact/top", "%s: IFM starts at row %d with top pad %d, the receptive field starts at row %d" % (where, a, pt, r0), case)
+                if a + E != min(r1, hi) or pb != max(0, r1 - hi):
+                    needed_total = max(dk - ((hi - lo) % sy or sy), 0)
+                    ep = lab["explicit_padding"]
+                    bucket = "explicit-pad-exceeds-skirt" if (ep[0] + ep[2] > needed_total) else "general"
+                    raise Violation("C10/artefact/bottom/%s" % bucket, "%s: bottom pad %d and %d rows read end at row %d, the receptive field ends at row %d" % (where, pb, E, a + E, r1), case)
+    if rec is not None and checked:
+        rec.cls("artefact-stripes-checked")
+        if multi:
+            rec.nontriv(["artefact", case], sample=dict(kind="artefact", ops=[o["code"] for o in case["spec"]["ops"]], accel=art.accel, stripes_checked=checked))
+    return multi
+
+
+ORACLES = {"C17": c17, "C02": c02, "C04": c04, "C06": c06, "C15": c15, "C10": c10}
 
 
 def _run(ctx, arg, rec):
     prop, shard, n = arg
-    strat = e2e.case_strategy(PROFILE.get(prop, "npu"), small_arena=(prop in ("C02", "C03", "C10") and shard % 2 == 0))
+    profile = PROFILE.get(prop, "npu")
+    if prop == "C10" and shard % 2:
+        profile = "cascade"
+    strat = e2e.case_strategy(profile, small_arena=(prop in ("C02", "C03") and shard % 2 == 0) or prop == "C10")
     run_hypothesis(rec, strat, lambda case, r: ORACLES[prop](case, r), n, sub_seed(ctx.seed, prop, "e2e", shard))
 
 
